@@ -1059,7 +1059,8 @@ impl<'a> CompactionIterator<'a> {
 
 		// Check if any version is REPLACE
 		// REPLACE semantics: delete all older versions regardless of retention
-		let has_set_with_delete = self.accumulated_versions.iter().any(|(key, _)| key.is_replace());
+		// A REPLACE makes the versions OLDER than itself stale (never newer ones).
+		let mut replace_seen = false;
 
 		// Track the visibility of the previous (newer) version we processed.
 		// Used to detect when a newer version supersedes an older one.
@@ -1067,8 +1068,9 @@ impl<'a> CompactionIterator<'a> {
 
 		// We need to iterate with indices to access accumulated_versions
 		let len = self.accumulated_versions.len();
+		let mut keep: Vec<bool> = Vec::with_capacity(len);
 		for i in 0..len {
-			let (key, value) = &self.accumulated_versions[i];
+			let (key, _value) = &self.accumulated_versions[i];
 			let is_hard_delete = key.is_hard_delete_marker();
 			let is_replace = key.is_replace();
 			let is_latest = i == 0;
@@ -1093,14 +1095,12 @@ impl<'a> CompactionIterator<'a> {
 			// Check if this version is superseded by a newer version
 			let superseded = if let Some(newer_vis) = newer_version_visibility {
 				// Can we drop superseded versions in this scenario?
-				let snapshot_allows_drop = match current_visibility {
-					// Active snapshots exist - use visibility boundaries to decide
-					SnapshotVisibility::BoundedBySnapshot(_) => true,
-					SnapshotVisibility::NewerThanAllSnapshots => true,
-					// No snapshots - only drop if versioning is disabled
-					// (with versioning enabled, retention policy decides instead)
-					SnapshotVisibility::NoActiveSnapshots => !self.enable_versioning,
-				};
+				// With versioning enabled the retention policy decides what history is
+				// kept, whether or not a snapshot happens to be open: an open reader
+				// must not cause versions inside the retention window to be dropped.
+				let outside_retention = self.retention_period_ns > 0
+					&& self.clock.now().saturating_sub(key.timestamp) > self.retention_period_ns;
+				let snapshot_allows_drop = !self.enable_versioning || outside_retention;
 
 				// Superseded = not latest AND in same visibility boundary AND allowed to drop
 				snapshot_allows_drop
@@ -1145,8 +1145,8 @@ impl<'a> CompactionIterator<'a> {
 			} else if is_hard_delete {
 				// Older DELETE: always stale (only latest tombstone matters)
 				true
-			} else if has_set_with_delete && !is_replace {
-				// REPLACE found: all older non-REPLACE versions are stale
+			} else if replace_seen {
+				// A newer REPLACE erased this version
 				true
 			} else {
 				// Older PUT: check versioning and retention
@@ -1186,12 +1186,32 @@ impl<'a> CompactionIterator<'a> {
 				is_latest
 			};
 
-			if should_output {
-				self.output_versions.push((key.clone(), value.clone()));
-			}
+			keep.push(should_output);
 
 			// Update for next iteration (this version becomes the "newer" one)
 			newer_version_visibility = Some(current_visibility);
+			if is_replace {
+				replace_seen = true;
+			}
+		}
+
+		// With versioning, a barrier (hard delete / REPLACE) must outlive every older version
+		// that is kept (e.g. for an older snapshot): otherwise the erased versions would
+		// reappear in history and time-travel reads once the barrier is gone.
+		if self.enable_versioning {
+			let mut older_kept = false;
+			for i in (0..len).rev() {
+				let k = &self.accumulated_versions[i].0;
+				if !keep[i] && older_kept && (k.is_hard_delete_marker() || k.is_replace()) {
+					keep[i] = true;
+				}
+				older_kept = older_kept || keep[i];
+			}
+		}
+		for (i, (key, value)) in self.accumulated_versions.iter().enumerate() {
+			if keep[i] {
+				self.output_versions.push((key.clone(), value.clone()));
+			}
 		}
 
 		// Clear accumulated versions for the next key
